@@ -1,5 +1,6 @@
 import Sekai.Driver.NetProps
 import Sekai.Driver.Perm
+import Sekai.Driver.Gov
 /-! `sekai-model`: the model side of the correspondence check. One op per input line
 (`<domain> <op> <args…>`), one canonical observation per output line. Core Lean only. -/
 open Sekai
@@ -7,12 +8,14 @@ open Sekai
 structure World where
   props : Driver.NetProps.St := {}
   perm : Driver.Perm.D := {}
+  gov : Gov.St := {}
 
 def dispatch (w : World) (line : String) : World × String :=
   let toks := (line.trimAscii.toString.splitOn " ").filter (· ≠ "")
   match toks with
   | "props" :: rest => let (s, o) := Driver.NetProps.step w.props rest; ({ w with props := s }, o)
   | "perm" :: rest => let (s, o) := Driver.Perm.step w.perm rest; ({ w with perm := s }, o)
+  | "gov" :: rest => let (s, o) := Driver.Gov.step w.perm.s w.gov rest; ({ w with gov := s }, o)
   | ["reset"] => ({}, "ok")
   | [] => (w, "")
   | _ => (w, "bad-op")
